@@ -301,6 +301,10 @@ func (s *IndexedState) add(ctx *Context, id string, x Map) (string, error) {
 	if err != nil {
 		return id, err
 	}
+	// restore puts the patterns of an overwritten rule back into
+	// the rule index when the overwrite is refused after all (the
+	// old rule is still the one that's stored).
+	restore := func() {}
 	if old, have := s.IdToFact[id]; have {
 		// The id is being overwritten.  If it held a rule, take that
 		// rule's patterns out of the rule index first; otherwise the
@@ -311,6 +315,15 @@ func (s *IndexedState) add(ctx *Context, id string, x Map) (string, error) {
 			if err := s.unindexRule(ctx, id, oldRule); err != nil {
 				return "", err
 			}
+			if _, scheduled := oldRule["schedule"]; !scheduled {
+				restore = func() {
+					if patterns := GetRulePatterns(ctx, oldRule); patterns != nil {
+						for _, m := range patterns {
+							s.RuleIndex.AddPatternMap(ctx, withoutOptional(m), id)
+						}
+					}
+				}
+			}
 		}
 	}
 	if rule != nil {
@@ -318,6 +331,7 @@ func (s *IndexedState) add(ctx *Context, id string, x Map) (string, error) {
 		Log(DEBUG, ctx, "IndexedState.add", "state", s.Name, "rule", rule, "ruleId", id)
 		if _, scheduled := rule["schedule"]; !scheduled {
 			if err = s.indexRule(ctx, id, rule); err != nil {
+				restore()
 				return "", err
 			}
 		}
@@ -331,6 +345,12 @@ func (s *IndexedState) add(ctx *Context, id string, x Map) (string, error) {
 		if err != nil {
 			Log(ERROR, ctx, "IndexedState.add", "state", s.Name, "error", err,
 				"when", "addHook")
+			if rule != nil {
+				// Take out what was just indexed for the
+				// refused rule.
+				s.unindexRule(ctx, id, rule)
+			}
+			restore()
 			return "", err
 		}
 	}
